@@ -25,7 +25,12 @@ Theorem C17_source_facts :
   struct_import_admits_missing_optional = true /\ struct_export_admits_missing_optional = true /\
   scaled_import_integers_only = true /\
   blob_import_strict_base64 = true /\
-  callbacks_called_inside_update_lock = true /\ update_lock_is_reentrant_lock = true.
+  callbacks_called_inside_update_lock = true /\ update_lock_is_reentrant_lock = true /\
+  (* the text of a document is pure ASCII (json.dump(data, f, indent=2): ensure_ascii is left at its default) and the
+     temporary file is a strict utf-8 text file: no write of a save fails for encoding reasons, whatever code points
+     (lone surrogates, non-BMP, control characters) the string values hold - writes fail by OSError faults only,
+     which is what `exec` of Model.v assumes *)
+  dump_text_is_ascii = true /\ tmp_file_is_utf8_text = true.
 Proof. repeat split; reflexivity. Qed.
 
 (* one save, any fault at any file-system operation: the stored file afterwards (that is also: at the crash point)
